@@ -16,6 +16,7 @@ pub mod c15;
 pub mod c16;
 pub mod c17;
 pub mod c18;
+pub mod c19;
 pub mod c20;
 
 use crate::engine::Tier;
@@ -46,6 +47,7 @@ pub fn dispatch(id: &str, args: Args) -> ! {
         "C16" => c16::run(args),
         "C17" => c17::run(args),
         "C18" => c18::run(args),
+        "C19" => c19::run(args),
         "C20" => c20::run(args),
         _ => crate::engine::fault(&format!("unknown property {id}")),
     }
